@@ -395,25 +395,29 @@ def constants (rt : Val → Option Val) (enums : List EnumDecl) (table : List IC
 
 /-! ## The skeleton of the source the model was written against (compared with `Gen.SdkConst`) -/
 
+/- Local variables are replaced by role names (`SUBSET` = the looked-up constant, `LITERAL` = the
+loop variable over literals, `ERRORS`/`SUBSETS` = the two result lists), so renaming a local is
+not a change. -/
+
 def expectedPrimGuards : List String :=
-  ["maybe_subset is None",
-   "not isinstance(maybe_subset, ConstantSetOfPrimitives)",
-   "maybe_subset.a_type is not constant_set.a_type"]
+  ["SUBSET is None",
+   "not isinstance(SUBSET, ConstantSetOfPrimitives)",
+   "SUBSET.a_type is not constant_set.a_type"]
 
 def expectedEnumGuards : List String :=
-  ["maybe_subset is None",
-   "not isinstance(maybe_subset, ConstantSetOfEnumerationLiterals)",
-   "maybe_subset.enumeration is not constant_set.enumeration"]
+  ["SUBSET is None",
+   "not isinstance(SUBSET, ConstantSetOfEnumerationLiterals)",
+   "SUBSET.enumeration is not constant_set.enumeration"]
 
-def expectedPrimMembership : String := "literal.value not in constant_set.literal_value_set"
-def expectedEnumMembership : String := "id(literal) not in constant_set.literal_id_set"
-def expectedFinal : List String := ["len(errors) > 0", "(None, errors)", "(subsets, None)"]
+def expectedPrimMembership : String := "LITERAL.value not in constant_set.literal_value_set"
+def expectedEnumMembership : String := "id(LITERAL) not in constant_set.literal_id_set"
+def expectedFinal : List String := ["len(ERRORS) > 0", "(None, ERRORS)", "(SUBSETS, None)"]
 /-- only `constant.literals` are written, never the subsets -/
 def expectedEmittedLoops : List String := ["enumerate(constant.literals)", "enumerate(constant.literals)"]
-/-- `{I}{string_literal(literal.value)}: aas_types.{name}.{literal_name},` and `return {map}.get(text, None)` -/
-def expectedFromStrEntry : List String := ["I", "python_common.string_literal(literal.value)", "name", "literal_name"]
+/-- the key of an entry of the from-string map, and `return {map}.get(text, None)` -/
+def expectedFromStrEntry : List String := ["python_common.string_literal(LITERAL.value)"]
 def expectedFromStrLookup : String := ".get(text, None)"
 /-- `{literal_name} = {repr(literal.value)}` -/
-def expectedEnumMemberLine : List String := ["literal_name", "repr(literal.value)"]
+def expectedEnumMemberLine : List String := ["repr(LITERAL.value)"]
 
 end AasVerif.SdkConst
